@@ -151,6 +151,18 @@ def r3(ctx):
     ctx.check(ok, "C07.R3", "the pooled transform state is written back to every part before any build", g.where,
               ctx.construct(g, text="write back transform state"),
               "expected model_specs._map(lambda ms: ms.transform_state.update(factor_evaluation_model_spec.transform_state)) before the builds")
+    # the result has the shape of the INPUT: only a bare (unstructured) spec is unwrapped
+    env_ = {n_: v_ for n_, v_, _ in assignments(g.node)}
+    ss = env_.get("should_simplify")
+    rets = [r for r in returns_of(g.node)]
+    ok = ss is not None and norm(ss) == "isinstance(spec, ModelSpec)" and any(isinstance(P.parent(r), ast.If) and norm(P.parent(r).test) == "should_simplify" and "_simplify()" in norm(r.value) for r in rets) \
+        and any(norm(r.value) == "model_matrices" for r in rets)
+    ssst = [st_ for n_, v_, st_ in assignments(g.node) if n_ == "should_simplify"]
+    prep = [st_ for n_, v_, st_ in assignments(g.node) if n_ == "model_specs"]
+    ok = ok and bool(ssst) and bool(prep) and ssst[0].lineno < prep[0].lineno
+    ctx.check(ok, "C07.R3", "the result keeps the nested shape of the formula: only an unstructured input is unwrapped", g.where, ctx.construct(g, text="should_simplify"),
+              f"should_simplify = `{norm(ss) if ss is not None else None}` (expected isinstance(spec, ModelSpec), decided before the specs are wrapped): a structured input with only a "
+              f"root would come back as a bare matrix")
     # the builds are mapped over every part, preserving structure
     for b in builds:
         calls = [c for c in ast.walk(b) if isinstance(c, ast.Call) and isinstance(c.func, ast.Attribute) and c.func.attr == "_map" and "_build_model_matrix" in norm(c)]
